@@ -6,6 +6,7 @@ import (
 	"fmt"
 	"sort"
 	"strings"
+	"time"
 )
 
 // C16 end to end: the same workload over the same network behaviour at shifted initial
@@ -125,6 +126,9 @@ func c16Family(j *Job) []xferCase {
 }
 
 func c16EndToEnd(j *Job) {
+	for _, t0 := range []uint32{1000, 0x7FFFFFF0, 0xFFFFFF00, 0xFFFFFFF8, 0xFFFFFFFF} {
+		j.Explore(fmt.Sprintf("throttle/tsn%#x", t0), throttleScenario(t0), Budget{}, nil)
+	}
 	// stream reset / reopen cycles with reconfiguration sequence numbers running past their wrap
 	for _, mode := range stdModes() {
 		for ti, tp := range [][2]uint32{{0xFFFFFFFF, 0xFFFFFFFF}, {0xFFFFFFFE, 0x7FFFFFFF}, {1000, 70000}} {
@@ -216,5 +220,44 @@ func c16EndToEnd(j *Job) {
 		if j.capped() {
 			return
 		}
+	}
+}
+
+// throttleScenario: a peer that keeps asking for stream resets it is not ready for (the reset
+// point lies ahead of what it has sent) can have at most maxReconfigRequests of them pending.
+// The comparison of the reset point with the cumulative TSN must not depend on where in the
+// number space the association happens to be.
+func throttleScenario(tsn0 uint32) *Scenario {
+	return &Scenario{
+		Name:    "reconfig-throttle",
+		Horizon: 120 * time.Second,
+		Setup:   func(m *Sim) { m.W.delay = [2]time.Duration{time.Millisecond, time.Millisecond} },
+		Body: func(m *Sim) {
+			cfg := epCfg{Server: true, NoInterleave: true, MTU: 1191, RTOMax: 4000, InitTSN: 7}
+			p := newScripted(m, cfg, false, false)
+			p.tsn0, p.tsn = tsn0, tsn0
+			if !p.connectServer() {
+				m.Failf("e2.base", "handshake with the scripted peer failed")
+				c03Teardown(m, p)
+				return
+			}
+			a := p.a
+			n := maxReconfigRequests + 3
+			for i := 0; i < n && a.getState() == established; i++ {
+				// outgoing reset request i for stream 100+i, to be performed once TSN tsn0+99 has arrived
+				v := cat(u32(tsn0+uint32(i)), u32(0), u32(tsn0+99), u16(uint16(100+i)))
+				m.W.inject(0, p.pkt(chunkBytes(wRECONFIG, 0, wTLVBytes(13, v, true))))
+				if i%50 == 49 {
+					p.settle(0)
+				}
+			}
+			p.settle(0)
+			if got := len(a.reconfigRequests); got > maxReconfigRequests {
+				m.Failf("shift.throttle", "with the peer's TSNs starting at %#x, %d reset requests that cannot be performed yet are pending (limit %d): the limit is applied with a comparison that does not survive the wrap", tsn0, got, maxReconfigRequests)
+			}
+			m.Observe("pending=%d", len(a.reconfigRequests))
+			c03Teardown(m, p)
+		},
+		Final: func(m *Sim, x *Exec) { generalVerdicts(m, x, false) },
 	}
 }
